@@ -28,7 +28,10 @@ SibEdges(l) == {<<i, j>> \in AllocSlots(l) \X AllocSlots(l) :
 
 Singles(l) ==
      {[kind |-> "fat_zero_pad", grp |-> "alloc", at |-> 0, val |-> 0]}
-  \cup {[kind |-> "fatsec_unmarked", grp |-> "alloc", at |-> k, val |-> v] : k \in 1..Len(l.fatsecs), v \in {ENDC, FREE}}
+  \* the stale cell of an unmarked FAT sector may hold anything: end / free markers, the DIFAT marker, an ordinary sector
+  \* number (another cell may "point" at the same sector), a number beyond the FAT, 0xFFFFFFFB
+  \cup {[kind |-> "fatsec_unmarked", grp |-> "alloc", at |-> k, val |-> v] : k \in 1..Len(l.fatsecs),
+          v \in {ENDC, FREE, -4, -5, 0, 1, 2, Len(l.fat) - 1, Len(l.fat), Len(l.fat) + 7}}
   \cup (IF Len(l.minifat) > 0 /\ Len(l.minifat) < Len(l.mfsecs) * FatPer
         \* what the excess entries hold is the writer's business: end / free markers, ordinary numbers (an entry that
         \* "points" at a mini sector another entry points at as well), or zeros up to the end of the sector
